@@ -352,8 +352,8 @@ def main():
             continue
         jobs.append(('job_fine', (L, intf, npol, 2, intf * 2 + (1 if intf > 1 else 0))))
     for (L, intf) in ((1, 1), (2, 1), (1, 2), (2, 3), (4, 2), (4, 1)) + (((3, 2),) if ck.thorough else ()):
-        for ncards, directio in ((3, None), (5, 0), (9, 1), (29, 1), (30, 1)):
-            if not ck.thorough and (L, intf) in ((4, 2),) and ncards not in (3, 29):
+        for ncards, directio in ((3, None), (5, 0), (9, 1), (28, 1), (29, 1), (30, 0)):   # 28 user cards + BLOCSIZE, NBITS, DIRECTIO + END = 32 cards = 5 * 512 bytes: aligned
+            if not ck.thorough and (L, intf) in ((4, 2),) and ncards not in (3, 28):
                 continue
             jobs.append(('job_reducer', (L, intf, ncards, directio)))
     ck.bounds = dict(fftlength='1,2,4', int_factor='1..3', pols='1-2', header='symbolic sample_rate, fch1, start_chan, num_chans, channel c; P=16', reducer_headers='3..30 cards, DIRECTIO absent/0/1 (incl. aligned)')
